@@ -332,7 +332,9 @@ func R08(group string) Rule {
 		case "ReadModifyWriteRow":
 			fn := P.MustFunc(core.PkgBttest, rpcRMW)
 			c.Fn(rpcRMW)
-			ins := callsTo(fn, core.PkgBttest, "appendOrReplaceCell")
+			ins := scopeCallsTo(P.Scope(fn, func(f *ssa.Function) bool {
+				return core.PkgPathOf(f) != core.PkgBttest || core.FuncName(f) == "appendOrReplaceCell" || core.FuncName(f) == "applyMutations"
+			}), core.PkgBttest, "appendOrReplaceCell")
 			if len(ins) != 1 {
 				c.Unknown("R08", "ReadModifyWriteRow/insert", fn.Pos(), "expected one appendOrReplaceCell call, found %d", len(ins))
 			} else {
@@ -346,10 +348,11 @@ func R08(group string) Rule {
 					"a read-modify-write rule reaches the cell insertion without its family having been found in the table's live family map")
 			}
 			n := 0
-			for _, ci := range core.AllCalls(fn) {
-				if ci.Static == nil || ci.Static.Pkg == nil || ci.Static.Pkg.Pkg.Path() != "encoding/binary" || ci.Static.Name() != "Uint64" {
-					continue
-				}
+			rmwStop := map[string]bool{"appendOrReplaceCell": true, "getOrCreateFamily": true, "getOrCreateColumn": true, "(*table).getOrCreateRow": true, "(*table).updateRow": true, "scrubRow": true}
+			rmwScope := P.Scope(fn, func(f *ssa.Function) bool { return core.PkgPathOf(f) != core.PkgBttest || rmwStop[core.FuncName(f)] })
+			for _, ci := range core.CallsIn(rmwScope, func(ci *core.CallInfo) bool {
+				return ci.Static != nil && ci.Static.Pkg != nil && ci.Static.Pkg.Pkg.Path() == "encoding/binary" && ci.Static.Name() == "Uint64"
+			}) {
 				n++
 				arg := ci.Common.Args[len(ci.Common.Args)-1]
 				have, why := minLen(P, arg, ci.Instr.Block())
